@@ -29,6 +29,8 @@ func init() {
 		"(*sync.Cond).Broadcast":  mBroadcast,
 		"(*sync.Cond).Wait":       mCondWait,
 		"errors.Is":               mErrorsIs,
+		"sort.SliceStable":        mSortSlice(true),
+		"sort.Slice":              mSortSlice(false),
 		"errors.As":               mFreshResult("errors.As"),
 		"errors.New":              mNewError,
 		"fmt.Errorf":              mErrorf,
@@ -500,4 +502,112 @@ func mAtomicCAS(x *Exec, cfg *Config, f *Frame, args []Val, pos token.Pos) (Val,
 	ok := Eq(cur, x.tv(args[1]))
 	x.atomicWrite(cfg, obj, b, Ite(ok, x.tv(args[2]), cur), pos)
 	return TV{T: ok}, nil
+}
+
+// ---------------------------------------------------------------------------
+// sort.SliceStable / sort.Slice
+// ---------------------------------------------------------------------------
+
+// mSortSlice models sort.SliceStable(x, less) and sort.Slice(x, less) for a
+// less closure that carries a contract with a clause
+//
+//	ensures less: result == <expr over i, j and the captured variables>
+//
+// and no modifies clause. TRUSTED (standard library, given that less is a
+// strict weak ordering that only reads the slice): afterwards the slice holds
+// a permutation of its previous contents (witnessed by the ghost functions
+// sortperm / sortinv, readable in contracts) in which no element is less than
+// an earlier one, and - SliceStable only - elements that are not ordered by
+// less keep their previous relative order.
+func mSortSlice(stable bool) modelFn {
+	return func(x *Exec, cfg *Config, f *Frame, args []Val, pos token.Pos) (Val, []*Config) {
+		st := cfg.st
+		sv, ok := args[0].(TV)
+		if !ok || sv.Dyn == nil {
+			unsupported("sort.Slice: the sorted value is not a slice known at the call site")
+		}
+		slt, ok := sv.Dyn.Underlying().(*types.Slice)
+		if !ok {
+			unsupported("sort.Slice on %s", sv.Dyn)
+		}
+		el := slt.Elem()
+		clo, ok := args[1].(*CloV)
+		if !ok {
+			unsupported("sort.Slice: less is not a closure built at the call site")
+		}
+		body := clo.Fn
+		if len(body.Blocks) == 0 && body.Origin() != nil {
+			body = body.Origin()
+		}
+		c := x.P.ContractFor(body)
+		if c == nil {
+			unsupported("sort.Slice: the less function %s has no contract", fullKey(body))
+		}
+		var rhs Expr
+		for _, cl := range c.Ensures {
+			if cl.Name != "less" {
+				continue
+			}
+			if b, ok := cl.E.(EBinary); ok && b.Op == "==" {
+				if id, ok := b.L.(EIdent); ok && id.Name == "result" {
+					rhs = b.R
+				}
+			}
+		}
+		if rhs == nil || len(c.Modifies) > 0 {
+			unsupported("sort.Slice: the contract of %s needs a clause 'ensures less: result == <expr>' and no modifies clause", fullKey(body))
+		}
+		idx := x.idxSort()
+		z := x.intLit(0, idx)
+		s := sv.T
+		n, off, base := x.slLen(s), x.slOff(s), x.slBase(s)
+		p, q, k := Term{"p!ss", idx}, Term{"q!ss", idx}, Term{"k!ss", idx}
+		inr := func(t Term) Term { return And(Le(z, t), Lt(t, n)) }
+		envAt := func(s *State, a, b Term) *SpecEnv {
+			env := x.calleeEnv(cfg, body, c, []Val{TV{T: a}, TV{T: b}}, clo.Binds)
+			env = env.withState(s)
+			env.old = s
+			return env
+		}
+		reqAt := func(s *State, a, b Term) Term {
+			var cs []Term
+			for _, r := range c.Requires {
+				cs = append(cs, x.specBool(envAt(s, a, b), r.E))
+			}
+			return And(cs...)
+		}
+		x.oblige(cfg, "call-pre", "sort: the precondition of the less function holds for every pair of indices", Forall([]Term{p, q}, Implies(And(inr(p), inr(q)), reqAt(st, p, q))), nil, pos)
+		kind := "sort.Slice"
+		if stable {
+			kind = "sort.SliceStable"
+		}
+		x.usedTrusted["model: "+kind+" (given a strict weak ordering `less` that only reads the slice and whose precondition is invariant under permutation of the slice: sorted"+map[bool]string{true: ", stable", false: ""}[stable]+" permutation)"] = true
+
+		old := st.clone()
+		name := x.elemsArr(el)
+		rowSort := SArr(idx, x.sortOf(el))
+		arr := x.heapGet(st, name, SArr(SInt, rowSort))
+		oldRow := Select(arr, base)
+		newRow := x.d.Fresh("sortedrow", rowSort)
+		perm := x.d.Fresh("sortperm", SArr(idx, idx))
+		inv := x.d.Fresh("sortinv", SArr(idx, idx))
+		st.heap[name] = Store(arr, base, newRow)
+		st.heap["$sortperm"] = perm
+		st.heap["$sortinv"] = inv
+		// outside the sorted window nothing changes
+		st.assume(Forall([]Term{k}, Implies(Or(Lt(k, off), Ge(k, Add(off, n))), Eq(Select(newRow, k), Select(oldRow, k))), []Term{Select(newRow, k)}))
+		// permutation with inverse
+		newAt := func(t Term) Term { return x.sliceElem(st, s, t, el) }
+		oldAt := func(t Term) Term { return x.sliceElem(old, s, t, el) }
+		st.assume(Forall([]Term{k}, Implies(inr(k), And(inr(Select(perm, k)), Eq(Select(inv, Select(perm, k)), k), Eq(newAt(k), oldAt(Select(perm, k))))), []Term{Select(perm, k)}))
+		st.assume(Forall([]Term{k}, Implies(inr(k), Eq(newAt(k), oldAt(Select(perm, k)))), []Term{newAt(k)}))
+		st.assume(Forall([]Term{k}, Implies(inr(k), And(inr(Select(inv, k)), Eq(Select(perm, Select(inv, k)), k))), []Term{Select(inv, k)}))
+		// sorted: no element is less than an earlier one
+		lessAt := func(a, b Term) Term { return x.specBool(envAt(st, a, b), rhs) }
+		st.assume(Forall([]Term{p, q}, Implies(And(inr(p), inr(q), Lt(p, q)), Not(lessAt(q, p)))))
+		if stable {
+			st.assume(Forall([]Term{p, q}, Implies(And(inr(p), inr(q), Lt(p, q), Not(lessAt(p, q))), Lt(Select(perm, p), Select(perm, q)))))
+		}
+		return TupV{}, nil
+	}
 }
